@@ -62,6 +62,7 @@ inductive Op where
   | get (u : Uid)
   | getAll (limit offset : Int)
   | retrieveAll (batch : Int)
+  | fault                                   -- a mutation on which the backend fails before doing anything
   deriving Repr, Inhabited
 
 inductive Out where
@@ -92,6 +93,7 @@ def step (cfg : Cfg) (s : St) : Op → St × Out
   | .retrieveAll batch =>
     if batch < 0 then (s, .valueError)
     else (s, .pols (retrieveAll (listing cfg s) batch.toNat))
+  | .fault => (s, .rejected)
 
 def run (cfg : Cfg) : St → List Op → St × List Out
   | s, [] => (s, [])
